@@ -105,6 +105,23 @@ static void body(world* w, int h, hdesc d, pika::stop_token st)
         }
         break;
     case 2: w->sem[h]->acquire(); break;
+    case 6:
+    {
+        // blocks at an interruption point that only an interruption can end (nobody releases)
+        int a = 4 + h;
+        call(a, "block", h);
+        try
+        {
+            w->sem[h]->acquire();
+        }
+        catch (pika::thread_interrupted const&)
+        {
+            ret(a, 1);
+            throw;
+        }
+        ret(a, 0);    // woken without an interruption: not explainable
+        break;
+    }
     case 3:
         for (int i = 0; i < 200000; ++i)
         {
@@ -180,17 +197,24 @@ int main(int argc, char** argv)
         {
             hdesc& d = ds[h];
             d.jthread = R.chance(1, 3);
-            d.body = (int) R.below(6);
+            d.body = (int) R.below(7);
             if (d.body == 3 && !d.jthread) d.body = 1;
+            if (d.body == 6 && d.jthread) d.body = 1;
             d.yields = 1 + (int) R.below(4);
             d.pre_join_yields = (int) R.below(5);
             d.interrupt = (d.body == 1 || d.body == 5) && R.chance(1, 2);
             d.interrupt_after = (int) R.below(3);
+            if (d.body == 6)
+            {
+                d.interrupt = true;    // the only thing that ends the body
+                d.interrupt_after = (int) R.below(6);
+            }
             d.user_cb = R.chance(1, 6);
             d.end = d.jthread ? (R.chance(1, 2) ? 3 : 0) : (int) R.below(5);
             if (d.end == 3 && !d.jthread) d.end = 0;
             if (d.body == 3) d.end = 3;                      // only destruction stops it
             if (d.body == 2 && d.end == 1) d.end = 0;
+            if (d.body == 6) d.end = R.chance(1, 2) ? 0 : 4;
             w->sem[h] = std::make_unique<pika::counting_semaphore<>>(0);
             w->body_done[h] = 0;
             w->cb_accepted[h] = 0;
